@@ -106,14 +106,21 @@ def quiesce (fl : Flags) (allow : Option (List Nat)) : Nat → W → W
         | some p => quiesce fl allow fuel (w.apply fl (.proc p true))
         | none => w
 
-/-- scheduler policy only, until job `j` is inside `aio_start` holding its job lock (the point where `aio_run` runs) -/
+/-- scheduler policy, helper threads of job `j` only, until job `j` is inside `aio_start` holding its job lock (the
+    point where `aio_run` runs); the other jobs stay where the ready queue alone takes them -/
 def untilEnter (fl : Flags) (j : Nat) : Nat → W → W
   | 0, w => w
   | fuel + 1, w =>
     let jb := w.a.s.jobs j
     if jb.pc == .lockEnter && (w.a.d.dir jb.ident).lock == .sched then w
     else if !w.a.s.ready.isEmpty then untilEnter fl j fuel (w.apply fl (.sched .step))
-    else match enabledThread w with
+    else
+      let s := w.a.s
+      let k? := (List.range s.threads.length).find? fun k =>
+        match s.threads[k]? with
+        | some (kind, i) => i == j && (world.gate w.a.d kind i (s.jobs i) (w.a.adopted i)).isSome
+        | none => false
+      match k? with
       | some k => untilEnter fl j fuel (w.apply fl (.sched (.deliver k)))
       | none => w
 
